@@ -329,7 +329,7 @@ func NewComplementor(letters string, molType feat.Moltype, pairs *Pairing, gap, 
 
 	if pairs != nil {
 		for i, v := range pairs.pair {
-			if !(pairs.ok[i] || Letter(i&unicode.MaxASCII) == v&unicode.MaxASCII) && !(a.valid[i] && a.valid[v]) {
+			if pairs.ok[i] && Letter(i&unicode.MaxASCII) != v&unicode.MaxASCII && !(a.valid[i] && a.valid[v]) {
 				return nil, fmt.Errorf("alphabet: invalid pairing: %c (%d) -> %c (%d)", i, i, v, v)
 			}
 		}
